@@ -97,6 +97,8 @@ class C10(Check):
                "storage": rng.choice(["plain", "gz", "sharded_raw",
                                       "sharded_gzip"]),
                "blocky": rng.random() < 0.35,
+               # uint64 labels with the top bit set (>= 2**63)
+               "high": rng.random() < 0.25,
                "salt": rng.randrange(1000)}
         n = rng.randint(12, 40 if tier == "thorough" else 24)
         kinds = ["truncate", "truncate", "extend", "flip", "flip", "zero",
@@ -318,6 +320,8 @@ class C10(Check):
                 return dsutil.ramp(scn["nchan"], co, salt)
             a = dsutil.voxels(scn["dtype"], scn["nchan"], co, salt,
                               labels if scn["enc"] != "raw" else None)
+            if scn.get("high") and scn["dtype"] == "uint64":
+                a = a | np.uint64(1 << 63)
             if scn.get("blocky") and scn["enc"] != "raw":
                 # a uniform leading region holding the smallest label
                 a = a.copy()
